@@ -797,6 +797,9 @@ def _check_discrete(out, case, cls, params, n):
         return paths
 
     prob = dist.probability
+    # (earlier queries with other arguments - whole-valued floats, not judged here - do not change later answers)
+    for i in range(len(tab)):
+        _call(prob, float(k_lo + i))
     # ---- declared pmf over the effective support
     dec = []
     raised = None
